@@ -46,6 +46,7 @@ type c16Case struct {
 	Dollar     bool   `json:"dollar"`             // the file names contain $HOME / ${USER}: they are names, not references
 	NowStyle   int    `json:"nowstyle,omitempty"` // how the Now entry of the configuration file is written: 0 midnight Z, 1 01:30+02:00, 2 22:30-05:00, 3 midnight +00:00
 	CfgStyle   int    `json:"cfgstyle,omitempty"` // layout of the configuration file: 0 plain, 1 lower case with blanks, 2 CRLF, 3 quoted values, 4 comments and indentation
+	OddNames   int    `json:"oddnames,omitempty"` // 1, 2: the data files have short names relative to the working directory that look like something else ("-", "--", "~", "*", "%s"): they are file names
 	DepthMul   int    `json:"depthmul,omitempty"` // >1: the four distinguishable depth values are 1..4 times this factor (depths far above the default)
 }
 
@@ -126,13 +127,26 @@ func checkC16(c c16Case, ctx *vCtx) *vFailure {
 		}
 	}
 	write := func(p, s string) {
+		if !filepath.IsAbs(p) {
+			p = filepath.Join(cwd, p) // names relative to the working directory of the run
+		}
 		if err := os.WriteFile(p, []byte(s), 0o644); err != nil {
 			vFault("write: %v", err)
 		}
 	}
+	oddA, oddB := []string{"-", "~", "*", "%s"}, []string{"@", "--", "$X", "~user"}
+	if c.OddNames != 0 {
+		ctx.Labelf("odd-file-names=%d", c.OddNames)
+	}
 	bookPath := func(k int) string {
 		if k == 5 {
 			return filepath.Join(cwd, "food.yaml")
+		}
+		switch c.OddNames {
+		case 1:
+			return oddA[k-1]
+		case 2:
+			return oddB[k-1]
 		}
 		if c.Dollar {
 			return filepath.Join(root, fmt.Sprintf("book-$HOME-${USER}-%d.yaml", k))
@@ -142,6 +156,12 @@ func checkC16(c c16Case, ctx *vCtx) *vFailure {
 	logPath := func(k int) string {
 		if k == 5 {
 			return filepath.Join(cwd, "log.yaml")
+		}
+		switch c.OddNames {
+		case 1:
+			return oddB[k-1]
+		case 2:
+			return oddA[k-1]
 		}
 		if c.Dollar {
 			return filepath.Join(root, fmt.Sprintf("log-$PATH-%d.yaml", k))
@@ -568,6 +588,7 @@ func genC16(t *rapid.T) c16Case {
 		CfgFifo:    rapid.IntRange(0, 7).Draw(t, "cfgfifo") == 0,
 		NoDBFalse:  rapid.IntRange(0, 5).Draw(t, "nodbfalse") == 0,
 		Dollar:     rapid.IntRange(0, 3).Draw(t, "dollar") == 0,
+		OddNames:   []int{0, 0, 0, 0, 1, 2}[rapid.IntRange(0, 5).Draw(t, "oddnames")],
 	}
 	if rapid.IntRange(0, 3).Draw(t, "pad") == 0 {
 		c.CfgPad = []int{3000, 4090, 5000, 20000}[rapid.IntRange(0, 3).Draw(t, "padn")]
